@@ -248,7 +248,26 @@ func intTo64(t *T) *T {
 	return t
 }
 
+// exitRequires: `loop N exit-requires E` - an edge that leaves loop N from a block of its body other
+// than the header (break, return, goto; the header's own exit is the loop running to completion) needs E.
+func (v *fnVC) exitRequires(from, to *ssa.BasicBlock, cond *T, st *State) {
+	if v.ct == nil || v.parent != nil || len(v.ct.ExitReqs) == 0 {
+		return
+	}
+	for k, c := range v.ct.ExitReqs {
+		for _, li := range v.loops {
+			if li.ordinal != c.Loop || from == li.header || !li.body[from.Index] || li.body[to.Index] || to == li.header {
+				continue
+			}
+			x := v.exFor(st, v.entry, nil)
+			x.resolve = v.resolver(from, st, nil)
+			v.oblige("exit-requires", fmt.Sprintf("loop%d.exit-requires%s@b%d-b%d", c.Loop, clauseTag(c, k), from.Index, to.Index), v.propsOf(c), c.Expr, v.pos(from.Instrs[len(from.Instrs)-1].Pos()), cond, x.Bool(c.Expr), st)
+		}
+	}
+}
+
 func (v *fnVC) setEdge(from, to *ssa.BasicBlock, cond *T, st *State) {
+	v.exitRequires(from, to, cond, st)
 	name := fmt.Sprintf("E$%d$%d", from.Index, to.Index)
 	if v.parent != nil {
 		v.e.fresh++
